@@ -18,6 +18,28 @@ def handleSyn (toks : List String) : String :=
     | _, _, _ => "bad-op"
   | _ => "bad-op"
 
-def C06Race.handlers : List (String × (List String → String)) := [("syn", handleSyn)]
+/-- `mrg <nthreads> <names> <adds> <kind>`: threads that each obtain their own handle of an instrument for the first time
+    (`Meter::RegisterSyncMetricStorage`) and record through it.  For EVERY interleaving the get-or-create protocol under
+    `storage_lock_` (the model and theorems of `Model/GetScopeLock.lean`: equal keys give the same object) and
+    `multi_handle` / `sched_conservation` predict one stream per instrument that holds everything recorded through all of
+    its handles. -/
+def handleMrg (toks : List String) : String :=
+  match splitOps toks with
+  | [nth, names, adds, kind] :: _ =>
+    match nth.toNat?, adds.toNat? with
+    | some nth, some adds =>
+      let ns := names.toList
+      if nth = 0 ∨ nth > 4 ∨ ns.length ≠ nth ∨ adds = 0 ∨ adds > 5 ∨ (kind ≠ "c" ∧ kind ≠ "u" ∧ kind ≠ "h") ∨
+          ns.any (fun c => c < 'a' ∨ c > 'c') then "bad-op"
+      else
+        let total (c : Char) : Nat := ((List.range nth).zip ns).foldl (fun acc (i, d) => if d = c then acc + adds * (1 + i) else acc) 0
+        let present := ['a', 'b', 'c'].filter (fun c => ns.contains c)
+        let rec_ := ",".intercalate (present.map fun c => s!"{c}:{total c}")
+        let got := ",".intercalate (present.map fun c => s!"{c}:{total c}/1")
+        s!"done=1 rec={rec_} got={got}"
+    | _, _ => "bad-op"
+  | _ => "bad-op"
+
+def C06Race.handlers : List (String × (List String → String)) := [("syn", handleSyn), ("mrg", handleMrg)]
 
 end Driver
